@@ -93,6 +93,8 @@ func c16Gen(c *run.Ctx, r *run.Rng, exact bool) *c16Graphic {
 	vm := ref.NewVM(g.vb, g.pal)
 	add := func(op rec.Op) { g.ops = append(g.ops, op); vm.Step(&g.ops[len(g.ops)-1]) }
 	nPaths := r.Range(1, 4)
+	var lastBlend *ivg.Color
+	lastOperand := 0
 	skipFirst := r.Chance(1, 5)
 	if skipFirst {
 		c.Count("skipped_first_path", 1)
@@ -171,7 +173,20 @@ func c16Gen(c *run.Ctx, r *run.Rng, exact bool) *c16Graphic {
 			case 1:
 				add(rec.Op{K: rec.KSetCReg, Adj: adj, Col: ivg.PaletteIndexColor(r.Byte())})
 			case 2:
-				add(rec.Op{K: rec.KSetCReg, Adj: adj, Col: ivg.BlendColor(r.Byte(), 0x80|uint8(r.Intn(64)), 0xc0|uint8(r.Intn(64)))})
+				if lastBlend != nil && r.Bool() {
+					// the register that the previous blend took as an operand gets another
+					// colour, then the very same blend is stored again
+					c.Count("same_blend_again_after_its_operand_register_changed", 1)
+					add(rec.Op{K: rec.KSetCSel, Sel: uint8(lastOperand)})
+					add(rec.Op{K: rec.KSetCReg, Col: ivg.RGBAColor(color.RGBA{uint8(r.Intn(128)), 0x30, uint8(r.Intn(128)), uint8(0x80 + r.Intn(128))})})
+					add(rec.Op{K: rec.KSetCSel, Sel: sel})
+					add(rec.Op{K: rec.KSetCReg, Adj: adj, Col: *lastBlend})
+					break
+				}
+				operand := r.Intn(64)
+				col := ivg.BlendColor(r.Byte(), 0x80|uint8(r.Intn(64)), 0xc0|uint8(operand))
+				lastBlend, lastOperand = &col, operand
+				add(rec.Op{K: rec.KSetCReg, Adj: adj, Col: col})
 			default:
 				add(rec.Op{K: rec.KSetCReg, Adj: adj, Col: ivg.RGBAColor(color.RGBA{uint8(r.Intn(128)), uint8(r.Intn(128)), 0x40, uint8(0x80 + r.Intn(128))})})
 			}
@@ -223,6 +238,20 @@ func fillPattern(img draw.Image, seed uint64) {
 	}
 }
 
+// c16Rasterizer returns the rasterizer for one rendering into dst.
+func c16Rasterizer(dst draw.Image, op draw.Op) *vec.Rasterizer {
+	if vz := c16Objs.oneRz; vz != nil {
+		vz.Dst, vz.DrawOp = dst, op
+		return vz
+	}
+	if c16Objs.newRz {
+		vz := vec.NewRasterizer(dst)
+		vz.DrawOp = op
+		return vz
+	}
+	return &vec.Rasterizer{Dst: dst, DrawOp: op}
+}
+
 // c16Render renders ops (already scaled) into dst at rect.
 //
 // How the objects are obtained is part of the configuration of a case
@@ -235,6 +264,9 @@ func fillPattern(img draw.Image, seed uint64) {
 var c16Objs struct {
 	reuse *render.Renderer
 	newRz bool
+	// oneRz, when set, is the one vec.Rasterizer of the case: every rendering
+	// points its exported Dst field at the image it draws into and sets DrawOp
+	oneRz *vec.Rasterizer
 	// viaBytes: renderings of the whole graphic go through Encoder and Decode
 	// (set for the offset and scale relations of exact graphics only; the
 	// reference rendering is always made by direct calls)
@@ -252,13 +284,7 @@ func c16Render(dst draw.Image, rect image.Rectangle, op draw.Op, vb ivg.ViewBox,
 		zp = new(render.Renderer)
 	}
 	z := zp
-	if c16Objs.newRz {
-		vz := vec.NewRasterizer(dst)
-		vz.DrawOp = op
-		z.SetRasterizer(vz, rect)
-	} else {
-		z.SetRasterizer(&vec.Rasterizer{Dst: dst, DrawOp: op}, rect)
-	}
+	z.SetRasterizer(c16Rasterizer(dst, op), rect)
 	z.Reset(vb, pal)
 	path := -1
 	skipping := false
@@ -299,13 +325,7 @@ func c16RenderBytes(dst draw.Image, rect image.Rectangle, op draw.Op, vb ivg.Vie
 	if z == nil {
 		z = new(render.Renderer)
 	}
-	if c16Objs.newRz {
-		vz := vec.NewRasterizer(dst)
-		vz.DrawOp = op
-		z.SetRasterizer(vz, rect)
-	} else {
-		z.SetRasterizer(&vec.Rasterizer{Dst: dst, DrawOp: op}, rect)
-	}
+	z.SetRasterizer(c16Rasterizer(dst, op), rect)
 	if err := decode.Decode(z, b); err != nil {
 		c16Objs.bytesErr = "Decode: " + err.Error()
 	}
@@ -429,6 +449,24 @@ func c16Case(c *run.Ctx, idx uint64) {
 	}
 	if c16Objs.newRz {
 		c.Count("rasterizer_from_NewRasterizer", 1)
+	}
+	c16Objs.oneRz = nil
+	if r.Chance(1, 3) {
+		// one rasterizer object for every rendering of the case, its Dst field
+		// pointed at each image in turn (first at a small image of its own)
+		first := image.NewRGBA(image.Rect(0, 0, 5, 4))
+		if c16Objs.newRz {
+			c16Objs.oneRz = vec.NewRasterizer(first)
+		} else {
+			c16Objs.oneRz = &vec.Rasterizer{Dst: first}
+			c16Objs.oneRz.Reset(5, 4)
+			c16Objs.oneRz.MoveTo(0, 0)
+			c16Objs.oneRz.LineTo(5, 0)
+			c16Objs.oneRz.LineTo(0, 4)
+			c16Objs.oneRz.ClosePath()
+			c16Objs.oneRz.Draw(first.Bounds(), image.Opaque, image.Point{})
+		}
+		c.Count("one_rasterizer_for_all_renderings", 1)
 	}
 	size := image.Pt(w, h)
 	own := image.Rectangle{Max: size}
